@@ -182,6 +182,12 @@ class Counter:
     n = 0
 
 
+def _nz(flag):
+    """A stream that is *not* configured to treat missing values as zero is built without the keyword, so the
+    documented default is what is exercised."""
+    return {"nones_are_zeros": True} if flag else {}
+
+
 def build_api(t, engines, counter):
     """Return an engine or higher-order builder for tree t (engines: leaf name -> FormulaEngine)."""
     k = t[0]
@@ -194,7 +200,7 @@ def build_api(t, engines, counter):
         if isinstance(inner, FormulaEngine):
             return inner
         counter.n += 1
-        return inner.build(f"inner-{counter.n}", nones_are_zeros=t[2])
+        return inner.build(f"inner-{counter.n}", **_nz(t[2]))
     if k == "un":
         x = build_api(t[2], engines, counter)
         return getattr(x, t[1])()
@@ -224,12 +230,12 @@ def run_tree(tree, inputs, nz_leaf=None, nz_build=False):
         chans = {n: Broadcast(name=f"in-{n}") for n in names}
         senders = {n: c.new_sender() for n, c in chans.items()}
         engines = {
-            n: FormulaEngine.from_receiver(f"leaf-{n}", chans[n].new_receiver(), Quantity, nones_are_zeros=nz_leaf.get(n, False))
+            n: FormulaEngine.from_receiver(f"leaf-{n}", chans[n].new_receiver(), Quantity, **_nz(nz_leaf.get(n, False)))
             for n in names
         }
         counter = Counter()
         top = build_api(tree, engines, counter)
-        engine = top if isinstance(top, FormulaEngine) else top.build("top", nones_are_zeros=nz_build)
+        engine = top if isinstance(top, FormulaEngine) else top.build("top", **_nz(nz_build))
         rx = engine.new_receiver()
         loop.settle()
         for k, vals in enumerate(inputs):
@@ -263,7 +269,7 @@ def run_tree_3phase(tree, inputs, nz_build=False):
         }
         counter = Counter()
         top = build_api(tree, engines, counter)
-        engine = top if isinstance(top, FormulaEngine3Phase) else top.build("top3", nones_are_zeros=nz_build)
+        engine = top if isinstance(top, FormulaEngine3Phase) else top.build("top3", **_nz(nz_build))
         rx = engine.new_receiver()
         loop.settle()
         for k, vals in enumerate(inputs):
